@@ -67,7 +67,9 @@ T = {
          "Trusted: Lean kernel, standard axioms, line-granular scheduler (harness/linesched.py, sys.monitoring) and its cooperative fake RLock; single deque.append / attribute store assumed atomic; one producer, one consumer."),
  "C08": ("Shutdown-only-for-a-cause invariant of Pamiq.Proto, totality of the step statistics for every firing pattern "
          "of the logging scheduler, uptime-window arithmetic theorem over rationals; timed runs of real launch() over a "
-         "configuration grid; float-regime monitor suites for the statistics and the uptime test.",
+         "configuration grid; float-regime monitor suites for the statistics and the uptime test. The uptime test, the statistics "
+         "logger (library calls only with enough samples, for every number of samples) and InferenceThread.on_tick (when a sample "
+         "is recorded) are translated from the source on every run and tied to the model.",
          "Lean 4 proofs (invariant, totality by induction, arithmetic) + correspondence", "§7.8", PROTO_NOTE),
  "C09": ("Phase structure of Pamiq.Proto: each callback kind only in its phase, no self-overlap, setup not re-entered, "
          "no work while flagged paused, teardown phase final, save callbacks exclude owner callbacks; protocol-language "
@@ -103,7 +105,8 @@ T = {
          "depth<=2.", "Lean 4 proofs by mutual structural induction + differential correspondence", "§7.12",
          "Trusted: Lean kernel, standard axioms, recording leaves. Child names are single path components; components occur once in the tree."),
  "C13": ("Round-robin cursor and training-gate decision proved for every tick/arrival history; marker only on positive "
-         "decisions; correspondence with real TrainingThread.on_tick and DataUser.", "Lean 4 proofs over tick histories + differential correspondence", "§7.13",
+         "decisions; is_trainable and TrainingThread.on_tick (which trainer runs, cursor := (cursor + 1) % n) are translated from the "
+         "source on every run and tied to the model; correspondence with real TrainingThread.on_tick and DataUser.", "Lean 4 proofs over tick histories + differential correspondence", "§7.13",
          "Trusted: Lean kernel, standard axioms, scripted clock. Single-threaded (interleavings are C07)."),
  "C14": ("Decision tables for model access, object identity, sync_exact and inference_fresh over every run/load history; an "
          "aborted training run changes nothing the agent sees (failed_run_keeps_inference); a model registered after the "
